@@ -61,3 +61,14 @@ pub proof fn lemma_vp_step(s: Seq<(Voter, Vec<(GovernanceActionId, VotingProcedu
     decreases i
 { assert(s.take(i + 1).drop_last() =~= s.take(i)); if i > 0 { lemma_vp_step(s, i - 1); } }
 pub open spec fn VotingProcedures_enc(x: VotingProcedures) -> Seq<Tok> { seq![Tok::Map(vp_cnt(x.0@) as u64)] + vp_body(x.0@) }
+// move_instantaneous_reward = [ 0 / 1, { stake_credential => delta_coin } / coin ]
+pub open spec fn MoveInstantaneousReward_enc(x: MoveInstantaneousReward) -> Seq<Tok> {
+    seq![Tok::Arr(2), Tok::UInt(match x.pot { MIRPot::Reserves => 0, MIRPot::Treasury => 1 })]
+        + (match x.variant { MIREnum::ToOtherPot(c) => c.enc(), MIREnum::ToStakeCredentials(m) => m.enc() })
+}
+// committee (inline in update_committee): { committee_cold_credential => epoch }, unit_interval
+pub open spec fn Committee_group(x: Committee) -> Seq<Tok> { seq![Tok::Map(x.members@.len() as u64)] + flat2(x.members@) + x.quorum_threshold.enc() }
+// update_committee = (4, gov_action_id / null, set<committee_cold_credential>, { committee_cold_credential => epoch }, unit_interval)
+pub open spec fn UpdateCommitteeAction_enc(x: UpdateCommitteeAction) -> Seq<Tok> {
+    seq![Tok::Arr(5), Tok::UInt(4)] + opt_null(x.gov_action_id) + x.members_to_remove.enc() + Committee_group(x.committee)
+}
